@@ -5,10 +5,10 @@
   3. "empty"/"fresh" sentinels: the constant the constructors store is the constant the tests compare  (R4)
   4. diagnostics: overriding entropy/float-table methods are clones of the trait defaults, `&M`
      forwards; no possibly-zero power of two (wrapping_pow2 at PRECISION == BITS) reaches a divisor    (R4/R3)
-Not decided: num_valid_bits, maybe_exhausted after the last symbol, bit-coder len(), numeric value of
+the tolerance of maybe_exhausted is compared with the sealing addend as power-of-two polynomials over the widths. Not decided: num_valid_bits, bit-coder len(), numeric value of
 entropy / KL.
 """
-from vlib import sym, rules, effects, dageq, anchors
+from vlib import sym, rules, effects, dageq, anchors, pow2
 from vlib.effects import Unresolved
 import props.C08 as c08
 
@@ -206,6 +206,141 @@ def check_sentinels(ctx, F):
             ctx.bad('R4', role, b.defpath, 'fresh range = %s but the test compares with %s' % (sent and sym.show(sent), [sym.show(x) for x in cmp_terms]), key=k2, loc=rules.loc(b))
 
 
+def _is_field(t, *names):
+    return isinstance(t, tuple) and t and t[0] == 'in' and tuple(x[1] for x in t[1] if isinstance(x, tuple) and x[0] == 'f')[-len(names):] == names
+
+
+def check_exhaustion_tolerance(ctx, F):
+    """maybe_exhausted() tolerates at least the largest distance that sealing can put between `point` and `lower`.
+
+    seal() emits the top word of `lower + A`; the reader shifts in zeros once the stream is over (checked on the
+    decoding step), so on an untouched stream  point - lower <= A, with equality when lower = 1 mod 2^k.  The test
+    `point - lower < T` therefore answers "maybe exhausted" after the last symbol for every stream only if  T >= A + 1.
+    T and A are read from the code as power-of-two polynomials over the symbolic widths (vlib/pow2.py).  (The code's own
+    T is larger - it also tolerates appended one bits - which the property does not ask for and the rule does not demand.)"""
+    parts = anchors.range_encoder_parts(F)
+    seal = parts.get('seal')
+    me = anchors.method(F, anchors.RDEC, 'maybe_exhausted')
+    key = 'R10/exhaustion-tolerance/' + anchors.RDEC
+    role = 'maybe_exhausted tolerates the full distance sealing can leave between point and lower'
+    if seal is None or me is None:
+        ctx.unresolved('R10', role, anchors.RDEC, 'seal or maybe_exhausted not found', key=key)
+        return
+    ctx.touch(seal); ctx.touch(me)
+    ev, spaths = rules.evaluate(seal)
+    A = k = None
+    for r in spaths or []:
+        for e in r.events:
+            if e['kind'] != 'call':
+                continue
+            for a in e['args']:
+                for x in sym.subterms(a):
+                    if isinstance(x, tuple) and x and x[0] == 'bin' and x[1] == 'Shr' and isinstance(x[2], tuple) and x[2][0] == 'bin' and x[2][1].split('.')[0] == 'Add':
+                        for l, add in ((x[2][2], x[2][3]), (x[2][3], x[2][2])):
+                            if e['callee'].endswith('WriteWords::write') and _is_field(l, 'state', 'lower') and pow2.p2(add) is not None and pow2.width_exp(x[3]) is not None:
+                                A, k = pow2.p2(add), pow2.width_exp(x[3])
+    ev, mpaths = rules.evaluate(me)
+    T = None
+    for r in mpaths or []:
+        terms = [t for t, v, _ in r.preds] + ([r.ret] if r.ret is not None else [])
+        for t in terms:
+            for x in sym.subterms(t):
+                if isinstance(x, tuple) and x and x[0] == 'bin' and x[1] in ('Lt', 'Le') and isinstance(x[2], tuple) and x[2][0] == 'bin' and x[2][1].split('.')[0] == 'Sub' \
+                        and _is_field(x[2][2], 'point') and _is_field(x[2][3], 'state', 'lower'):
+                    T = pow2.p2(x[3])
+                    if T is not None and x[1] == 'Le':
+                        T = T.plus(pow2.P2([(pow2.E0, 1)]))
+    # the reader shifts in zeros once the stream is over: every update of `point` in the decoding step is
+    # point << W  or  (point << W) | <word read from bulk>
+    dec = anchors.method(F, anchors.RDEC, 'decode_symbol', 'stream::Decode')
+    zero_fill = None
+    if dec is not None:
+        ctx.touch(dec)
+        dev, dpaths = rules.evaluate(dec)
+        zero_fill = bool(dpaths)
+        P = (1, 'deref', ('f', 'point'))
+        for r in dpaths or []:
+            if r.end != 'return':
+                continue
+            v = dev.final_read(r, P)
+            if v == ('in', P):
+                continue
+            shl = v
+            if v[0] == 'bin' and v[1] == 'BitOr':
+                a, b = v[2], v[3]
+                shl, w = (a, b) if (a[0] == 'bin' and a[1] == 'Shl') else (b, a)
+                if not any(isinstance(x, tuple) and x and x[0] == 'call' and str(x[1]).endswith('ReadWords::read') for x in sym.subterms(w)):
+                    zero_fill = False
+            if not (shl[0] == 'bin' and shl[1] == 'Shl' and shl[2] == ('in', P)):
+                zero_fill = False
+    if A is None or k is None or T is None or not zero_fill:
+        ctx.unresolved('R10', role, anchors.RDEC, 'shape not recognised (sealing addend %s, emitted-word shift %s, tolerance %s, reader zero-fills past the end: %s)' % (
+            'found' if A is not None else 'missing', 'found' if k is not None else 'missing', 'found' if T is not None else 'missing', zero_fill), key=key)
+        return
+    # with zero fill: point = floor((lower + A) / 2^k) * 2^k, so point - lower <= A (attained when lower = 1 mod 2^k, A = 2^k - 1)
+    need = A.plus(pow2.P2([(pow2.E0, 1)]))
+    d = T.plus(need, -1)
+    sg = d.sign(exps_nonneg=True)
+    ctx.assume('width differences in exponents (State::BITS - Word::BITS, ...) are non-negative: enforced by the coders\' compile-time assertions (witnessed in the thorough tier)')
+    if sg in ('zero', 'pos', 'nonneg'):
+        ctx.ok('R10', role, anchors.RDEC, 'tolerance T = %s; sealing addend A = %s; unseen low bits < 2^(%s); the reader shifts in zeros past the end, so point - lower <= A; T - (A + 1) = %s >= 0' % (T.show(), A.show(), sym.affine_str(k), d.show()), key=key)
+    elif sg == 'neg':
+        ctx.bad('R10', role, anchors.RDEC, 'tolerance T = %s is below A + 1 = %s (A = %s is what seal() adds to lower before it emits the top word; the reader zero-fills, so point - lower reaches A when lower = 1 mod 2^k): a decoder that consumed exactly the encoded symbols can have point - lower >= T and then reports "not exhausted"' % (
+            T.show(), need.show(), A.show()), key=key, loc=rules.loc(me))
+    else:
+        ctx.unresolved('R10', role, anchors.RDEC, 'sign of T - (A + 1) = %s not decidable from coefficient signs' % d.show(), key=key)
+
+
+def check_bit_coder_sentinel(ctx, F):
+    """Bit-level coders: "is there a partial word?" is decided everywhere by comparing the same field with zero, and that
+    field is what the constructors zero (sibling agreement of the emptiness sentinel)."""
+    SYMC = 'symbol::SymbolCoder'
+    users = {}
+    for b in F.bodies:
+        if b.promoted is not None or '::tests::' in b.defpath or b.dk not in ('Fn', 'AssocFn'):
+            continue
+        own = b.self_adt == SYMC
+        guard = b.self_adt in ('symbol::StackCoderGuard', 'symbol::QueueEncoderGuard')
+        if not (own or guard) or b.name not in ('len', 'is_empty', 'into_compressed', 'new', 'drop'):
+            continue
+        if own and b.name == 'new':
+            continue
+        ev, paths = rules.evaluate(b)
+        fields = set()
+        for r in paths or []:
+            terms = [t for t, v, _ in r.preds] + ([r.ret] if r.ret is not None else [])
+            for t in terms:
+                for x in sym.subterms(t):
+                    if isinstance(x, tuple) and x and x[0] == 'bin' and x[1] in ('Eq', 'Ne'):
+                        for o, other in ((x[2], x[3]), (x[3], x[2])):
+                            if other[0] == 'k' and other[1] == 'zero':
+                                for y in sym.subterms(o):
+                                    if isinstance(y, tuple) and y and y[0] == 'in' and y[1][-1][0] == 'f' and y[1][-1][1] in ('mask_last_written', 'current_word', 'mask_next_to_read'):
+                                        fields.add(y[1][-1][1])
+                                    if isinstance(y, tuple) and y and y[0] == 'proj' and isinstance(y[2], tuple) and y[2][0] == 'f' and y[2][1] in ('mask_last_written', 'current_word'):
+                                        fields.add(y[2][1])
+        if fields:
+            users[b.defpath] = (b, fields)
+            ctx.touch(b)
+    key = 'R4/sentinel/' + SYMC
+    role = 'every "partial word present?" test of the bit coders compares the same field with zero'
+    allf = set()
+    for dp, (b, f) in users.items():
+        allf |= f
+    if len(users) < 4:
+        ctx.unresolved('R4', role, SYMC, 'only %d functions with a zero test on the partial-word fields found' % len(users), key=key)
+    elif len(allf) == 1:
+        ctx.ok('R4', role, SYMC, '%d functions, all test `%s == 0`' % (len(users), list(allf)[0]), key=key)
+    else:
+        # the deviant is the function whose field set differs from the majority
+        from collections import Counter
+        cnt = Counter(tuple(sorted(f)) for b, f in users.values())
+        major = cnt.most_common(1)[0][0]
+        dev = [(dp, sorted(f)) for dp, (b, f) in users.items() if tuple(sorted(f)) != major]
+        ctx.bad('R4', role, SYMC, 'siblings test `%s == 0`, but %s tests %s: it answers "empty" for a coder whose partial word holds only zero bits' % (
+            ', '.join(major), dev[0][0].rsplit('::', 1)[-1], dev[0][1]), key=key, loc=rules.loc(users[dev[0][0]][0]))
+
+
 DIAG = ['entropy_base2', 'cross_entropy_base2', 'reverse_cross_entropy_base2', 'kl_divergence_base2', 'reverse_kl_divergence_base2',
         'floating_point_symbol_table']
 
@@ -291,6 +426,8 @@ def run(ctx):
     check_range_sizes(ctx, F)
     c08.check_encoder_guard(ctx, F)      # seal() writes num_seal_words() words; frame of seal (shared with C08)
     check_sentinels(ctx, F)
+    check_bit_coder_sentinel(ctx, F)
+    check_exhaustion_tolerance(ctx, F)
     check_diagnostics(ctx, F)
     ctx.assume('remaining() of the backend is exact (C17 for the provided backends)')
     ctx.assume('ExactSizeIterator::len of bit_array_to_chunks_truncated equals the number of items it yields (std contract of Range/StepBy/Rev/Map)')
@@ -298,7 +435,7 @@ def run(ctx):
         'level': 'other',
         'explanation': 'Static agreement rules over extracted MIR: the value returned by num_words()/num_bits() is compared, as an affine form over symbolic atoms (remaining(bulk), chunk count of state, '
                        'num_seal_words()), with the number of words the export path appends (loop-summarised effect count); "empty" sentinels are compared as atoms between constructors and tests; '
-                       'diagnostic overrides are compared structurally with the trait defaults and checked for possibly-zero divisors. Not decided: num_valid_bits, maybe_exhausted after the last symbol, '
+                       'diagnostic overrides are compared structurally with the trait defaults and checked for possibly-zero divisors. the tolerance of maybe_exhausted is compared with the sealing addend as power-of-two polynomials over the widths. Not decided: num_valid_bits, '
                        'bit-coder len(), the numeric value of the information-theoretic diagnostics.',
         'trusted_base': ['rustc type checker + MIR construction', 'cfacts extractor', 'iterator length algebra (vlib/effects.py)', 'std iterator contracts'],
     }
